@@ -441,6 +441,10 @@ class ClientWorldObjectManager:
             # an explicit follow-up update?
             child_obj = region_state.lookup_localid(child_id)
             if child_obj and child_obj.PCode == PCode.AVATAR:
+                if not obj:
+                    # We took the orphan list away from the unknown parent, the
+                    # surviving avatar still needs to be adopted if it shows up.
+                    region_state._track_orphan(child_id, local_id)
                 continue
             self._kill_object_by_local_id(region_state, child_id)
 
